@@ -20,7 +20,7 @@ the states *inside* a step (`dispatch` result, `editPart`) satisfy the shared-st
 namespace Chewing.Link
 open Chewing Chewing.C01 Chewing.C06
 
-variable {D L : Type} {env : Env D L} {G : D → Prop}
+variable {D L : Type} {env : Env D L} {G : D → Prop} {w : Prop}
 
 /-! ## the tiling hypotheses, from C01's invariant -/
 
@@ -31,14 +31,33 @@ theorem tiles_of_pathOK {c : Composition} {p : List Interval} (h : PathOK c p) :
 /-- **C02's `TilesAt` from C01's invariant**: at a shared state satisfying `ShInv` (valid composition, a word
     for every buffered syllable, well-formed dictionary) every alternative the engine returns tiles the
     buffer — by `EnvOK.convert_ok` (C03) alone -/
-theorem tilesAt_of_shInv (hE : EnvOK env G) {sh : Shared D L} (h : ShInv env G sh) : C02.TilesAt env sh := by
+theorem tilesAt_of_shInv (hE : EnvOK env G) {sh : Shared D L} (h : ShInv env G True sh) : C02.TilesAt env sh := by
   intro paths hp p hm
   obtain ⟨paths', hp', _, hall⟩ := hE.convert_ok sh.engine sh.dict sh.com.inner h.good
-    (compValid_of_cinv h.ced.inner) (fun x hx => (h.word x hx).1)
+    (compValid_of_cinv h.ced.inner)
+  have hlen := hE.convert_len sh.engine sh.dict sh.com.inner paths h.good (compValid_of_cinv h.ced.inner)
+    (fun x hx => (h.word trivial x hx).1) hp p hm
   rw [hp] at hp'
   have := Outcome.ok.inj hp'
   subst this
-  exact tiles_of_pathOK (hall p hm)
+  exact tiles_of_pathOK ⟨(hall p hm).1, hlen⟩
+
+/-- a chain has well-formed intervals whose lengths sum to the covered range (C05's `TilesLen`) — whatever the
+    texts are (also with the spelling of a word-less syllable) -/
+theorem tilesLen_of_chain {a n : Nat} {ivs : List Interval} (h : Conv.IvChain a n ivs) :
+    (∀ iv ∈ ivs, iv.start ≤ iv.stop) ∧ a + (ivs.map Interval.len).sum = n := by
+  induction ivs generalizing a with
+  | nil => exact ⟨fun _ hm => (by cases hm), by simp only [List.map_nil, List.sum_nil, Nat.add_zero]; exact h⟩
+  | cons iv rest ih =>
+    obtain ⟨h1, h2, h3⟩ := h
+    obtain ⟨i1, i2⟩ := ih h3
+    refine ⟨?_, ?_⟩
+    · intro x hx
+      rcases List.mem_cons.mp hx with rfl | hx
+      · omega
+      · exact i1 x hx
+    · simp only [List.map_cons, List.sum_cons, Interval.len]
+      omega
 
 /-- a tiling has well-formed intervals whose lengths sum to the covered range (C05's `TilesLen`) -/
 theorem tilesLen_of_tiles {a n : Nat} {ivs : List Interval} (h : C02.Tiles a n ivs) :
@@ -58,13 +77,13 @@ theorem tilesLen_of_tiles {a n : Nat} {ivs : List Interval} (h : C02.Tiles a n i
 
 /-! ## the states inside a step satisfy the shared-state invariant -/
 
-theorem applyTrans_shInv {sh : Shared D L} (h : ShInv env G sh) (st : St) (t : Trans) :
-    ShInv env G (applyTrans sh st t).1 := by
+theorem applyTrans_shInv {sh : Shared D L} (h : ShInv env G w sh) (st : St) (t : Trans) :
+    ShInv env G w (applyTrans sh st t).1 := by
   cases t <;> exact h.congr rfl rfl rfl rfl rfl rfl
 
 /-- the state machine part of a key — in ALL four states — leaves a shared state satisfying the invariant -/
-theorem dispatch_shInv (hE : EnvOK env G) {e : Editor D L} (hi : EditorInv env G e) (ev : KeyEvent)
-    {sh : Shared D L} {st : St} (hd : dispatch env e ev = .ok (sh, st)) : ShInv env G sh := by
+theorem dispatch_shInv (hE : EnvOK env G) {e : Editor D L} (hi : EditorInv env G w e) (ev : KeyEvent)
+    {sh : Shared D L} {st : St} (hd : dispatch env e ev = .ok (sh, st)) : ShInv env G w sh := by
   cases hst : e.state with
   | selecting s =>
     obtain ⟨x, hq, h1, _, _⟩ := selectingNext_ok hE (preamble_inv hi.sh) (selInv_preamble hi hst) ev
@@ -95,17 +114,17 @@ theorem dispatch_shInv (hE : EnvOK env G) {e : Editor D L} (hi : EditorInv env G
 
 /-- **the edited state of every operation** (C02's `editPart`: after the editing part, before a commit
     path) satisfies the shared-state invariant -/
-theorem editPart_shInv (hE : EnvOK env G) {e : Editor D L} (hi : EditorInv env G e) (op : Op L) (hv : OpValid op)
-    (hk : ¬ Known env e op) {m : Shared D L} (hm : C02.editPart env e op = .ok m) :
-    ShInv env G m := by
-  have other : ∀ {e' : Editor D L}, e.apply env op = .ok e' → ShInv env G e'.shared := by
+theorem editPart_shInv (hE : EnvOK env G) {e : Editor D L} (hi : EditorInv env G w e) (op : Op L) (hv : OpValid op)
+    (hk : w → ¬ Known env e op) {m : Shared D L} (hm : C02.editPart env e op = .ok m) :
+    ShInv env G w m := by
+  have other : ∀ {e' : Editor D L}, e.apply env op = .ok e' → ShInv env G w e'.shared := by
     intro e' he'
     obtain ⟨e2, h2, hi2⟩ := apply_ok hE hi op hv hk
     rw [he'] at h2
     have := Outcome.ok.inj h2
     subst this
     exact hi2.sh
-  have viaApply : ∀ {r : Outcome (Editor D L)}, r = e.apply env op → r.map (·.shared) = .ok m → ShInv env G m := by
+  have viaApply : ∀ {r : Outcome (Editor D L)}, r = e.apply env op → r.map (·.shared) = .ok m → ShInv env G w m := by
     intro r hr hmm
     obtain ⟨e', he', hs⟩ := C02.map_ok hmm
     rw [← hs]
@@ -122,7 +141,7 @@ theorem editPart_shInv (hE : EnvOK env G) {e : Editor D L} (hi : EditorInv env G
     simp only [C02.editPart] at hm
     split at hm
     · next s hst =>
-      have hs : SelInv env e.shared s := by have := hi.st; rw [hst] at this; exact this
+      have hs : SelInv env w e.shared s := by have := hi.st; rw [hst] at this; exact this
       obtain ⟨x, hq, h1, _, _⟩ := select_ok hE hi.sh hs n
       rw [hq] at hm
       simp only [Outcome.map] at hm
@@ -143,21 +162,21 @@ theorem editPart_shInv (hE : EnvOK env G) {e : Editor D L} (hi : EditorInv env G
   | setEngine k => exact viaApply rfl hm
   | learn k p => exact viaApply rfl hm
   | unlearn k p => exact viaApply rfl hm
-  | jump w => exact viaApply rfl hm
+  | jump which => exact viaApply rfl hm
 
 /-- **`TilesAlong` is a theorem**: along every history that is allowed in C01's sense (valid arguments,
     outside the known class F02/F03; since the merge with fixA the `jump_*` calls on an open phrase list are
     included — `Allowed` lost its `Covered` conjunct) from a state satisfying `EditorInv`,
     the conversion answer tiles the buffer at every edited state -/
 theorem tilesAlong_of_allowed (hE : EnvOK env G) (ops : List (Op L)) :
-    ∀ e : Editor D L, EditorInv env G e → Allowed env e ops → C02.TilesAlong env e ops := by
+    ∀ e : Editor D L, EditorInv env G True e → Allowed env e ops → C02.TilesAlong env e ops := by
   induction ops with
   | nil => intro _ _ _; trivial
   | cons op ops ih =>
     intro e hi ha
     obtain ⟨hv, hk, hrest⟩ := ha
-    refine ⟨fun m hm => tilesAt_of_shInv hE (editPart_shInv hE hi op hv hk hm), fun e' he' => ?_⟩
-    obtain ⟨e2, h2, hi2⟩ := apply_ok hE hi op hv hk
+    refine ⟨fun m hm => tilesAt_of_shInv hE (editPart_shInv hE hi op hv (fun _ => hk) hm), fun e' he' => ?_⟩
+    obtain ⟨e2, h2, hi2⟩ := apply_ok hE hi op hv (fun _ => hk)
     rw [he'] at h2
     have := Outcome.ok.inj h2
     subst this
@@ -166,10 +185,14 @@ theorem tilesAlong_of_allowed (hE : EnvOK env G) (ops : List (Op L)) :
 /-! ## C05's bound without the tiling premise -/
 
 /-- **C05's `TilingAt` from C01's invariant** -/
-theorem tilingAt_of_shInv (hE : EnvOK env G) {sh : Shared D L} (h : ShInv env G sh) : C05.TilingAt env sh := by
+theorem tilingAt_of_shInv (hE : EnvOK env G) {sh : Shared D L} (h : ShInv env G w sh) : C05.TilingAt env sh := by
   intro paths hp ivs hm
-  have ht : C02.Tiles 0 sh.com.len ivs := tilesAt_of_shInv hE h paths hp ivs hm
-  obtain ⟨h1, h2⟩ := tilesLen_of_tiles ht
+  obtain ⟨paths', hp', _, hall⟩ := hE.convert_ok sh.engine sh.dict sh.com.inner h.good
+    (compValid_of_cinv h.ced.inner)
+  rw [hp] at hp'
+  have := Outcome.ok.inj hp'
+  subst this
+  obtain ⟨h1, h2⟩ := tilesLen_of_chain (hall ivs hm).1
   exact ⟨h1, by rw [Nat.zero_add] at h2; exact h2⟩
 
 /-- a key whose state-machine part ends in `Entering` without *absorb* was handled in `Entering`
@@ -196,7 +219,7 @@ theorem entering_of_not_absorb {e : Editor D L} {ev : KeyEvent} {sh : Shared D L
 /-- **C05 `bounded_after_key`, linked**: for every environment satisfying C01's `EnvOK`, from every state
     satisfying C01's invariant, in ANY of the four states: a key that is answered *absorb* or *commit* and
     ends in `Entering` leaves the buffer within `auto_commit_threshold`.  No tiling premise. -/
-theorem bounded_after_key_linked (hE : EnvOK env G) {e e' : Editor D L} (hi : EditorInv env G e) {ev : KeyEvent}
+theorem bounded_after_key_linked (hE : EnvOK env G) {e e' : Editor D L} (hi : EditorInv env G w e) {ev : KeyEvent}
     {b : KB} (h : e.processKey env ev = .ok (e', b)) (he : e'.state = .entering) (hb : b = .absorb ∨ b = .commit) :
     e'.shared.com.len ≤ e'.shared.options.autoCommitThreshold := by
   have ht : ∀ sh st, dispatch env e ev = .ok (sh, st) → C05.TilingAt env sh :=
@@ -217,7 +240,7 @@ theorem bounded_after_key_linked (hE : EnvOK env G) {e e' : Editor D L} (hi : Ed
 
 /-- the auto-commit is total at a state satisfying the invariant (C05 `tryAutoCommit_total`, linked) and
     re-establishes the bound -/
-theorem tryAutoCommit_total_linked (hE : EnvOK env G) {sh : Shared D L} (h : ShInv env G sh) :
+theorem tryAutoCommit_total_linked (hE : EnvOK env G) {sh : Shared D L} (h : ShInv env G w sh) :
     ∃ sh2, Shared.tryAutoCommit env sh = .ok sh2 ∧ sh2.com.len ≤ sh2.options.autoCommitThreshold := by
   obtain ⟨sh2, hq, _⟩ := tryAutoCommit_ok hE h
   exact ⟨sh2, hq, (C05.tryAutoCommit_bound_at env (tilingAt_of_shInv hE h) hq).1⟩
@@ -227,7 +250,8 @@ theorem tryAutoCommit_total_linked (hE : EnvOK env G) {sh : Shared D L} (h : ShI
 `EnvOK` bundles hypotheses on the dictionary, the estimator and the conversion engine.  The engine clause
 `convert_ok` is discharged by C03's theorems for the engine model `Conv.convert` on buffers of at most 128
 symbols (`ScoreBound`: the `i32` score arithmetic); beyond that length C03 proves nothing, and the clause
-stays a hypothesis (`EngineIsC03.beyond`; the auto-commit keeps real buffers far below 128 symbols). -/
+stays a hypothesis (`EngineIsC03.beyond`; the auto-commit keeps real buffers far below 128 symbols), as it does
+for a buffer holding the syllable code 0 (empty spelling), which no keyboard layout produces. -/
 
 /-- the dictionary- and estimator-side clauses of C01's `EnvOK` (everything except `convert_ok`) -/
 structure DictOK (env : Env D L) (G : D → Prop) : Prop where
@@ -247,19 +271,23 @@ structure DictOK (env : Env D L) (G : D → Prop) : Prop where
     dictionary states read as lookup functions by `view`) over dictionaries that satisfy C03's hypotheses -/
 structure EngineIsC03 (env : Env D L) (G : D → Prop) (pick : Nat → List Conv.Path → Nat) (view : D → Dict) : Prop where
   pick_ok : Conv.PickInRange pick
-  /-- `env.convert` IS `Conv.convert` wherever C03's theorems reach -/
-  engine : ∀ k d c, c.symbols.length ≤ 128 → env.convert k d c = Conv.convert pick (toEngine k) (view d) c
+  /-- `env.convert` IS `Conv.convert` wherever C03's theorems reach: at most 128 symbols (`ScoreBound`), no
+      buffered syllable with the empty spelling (`spell 0 = []`; no keyboard layout produces the code 0) -/
+  engine : ∀ k d c, c.symbols.length ≤ 128 → Conv.SpellNonempty c →
+    env.convert k d c = Conv.convert pick (toEngine k) (view d) c
   /-- the editor's word test reads the same dictionary as the engine -/
   lookup : ∀ d x s, env.hasPhrase d [x] s = true → ((view d).lookup [x] s).head?.isSome = true
-  noEmptyKey : ∀ d, G d → Conv.NoEmptyKey (view d)
   wellFormed : ∀ d, G d → Conv.WellFormed (view d)
   freq : ∀ d, G d → ∀ strat key, ∀ p ∈ (view d).lookup key strat, p.freq ≤ 8388608
-  /-- beyond 128 symbols (outside C03's `ScoreBound`) the contract is assumed -/
-  beyond : ∀ k d c, G d → Conv.CompValid c → 128 < c.symbols.length →
+  /-- outside that reach the contract is assumed -/
+  beyond : ∀ k d c, G d → Conv.CompValid c → (128 < c.symbols.length ∨ ¬ Conv.SpellNonempty c) →
+    OkAnd (fun paths => paths ≠ [] ∧ ∀ p ∈ paths, PathW c p) (env.convert k d c)
+  beyond_len : ∀ k d c paths, G d → Conv.CompValid c → (128 < c.symbols.length ∨ ¬ Conv.SpellNonempty c) →
     (∀ x, Sym.syl x ∈ c.symbols → env.hasPhrase d [x] (engStrategy k) = true) →
-    OkAnd (fun paths => paths ≠ [] ∧ ∀ p ∈ paths, PathOK c p) (env.convert k d c)
+    env.convert k d c = .ok paths → ∀ p ∈ paths, ∀ iv ∈ p, iv.text.length = iv.stop - iv.start
 
-/-- **C03 discharges `EnvOK.convert_ok`** for such an environment: `EnvOK` from the dictionary clauses alone -/
+/-- **C03 discharges `EnvOK.convert_ok` / `convert_len`** for such an environment: `EnvOK` from the dictionary
+    clauses alone -/
 theorem envOK_of_C03 {pick : Nat → List Conv.Path → Nat} {view : D → Dict} (hd : DictOK env G)
     (he : EngineIsC03 env G pick view) : EnvOK env G where
   wf := hd.wf
@@ -273,11 +301,22 @@ theorem envOK_of_C03 {pick : Nat → List Conv.Path → Nat} {view : D → Dict}
   remove_good := hd.remove_good
   estimate_ok := hd.estimate_ok
   convert_ok := by
-    intro k d c hg hc hw
-    by_cases hlen : c.symbols.length ≤ 128
-    · rw [he.engine k d c hlen]
-      exact convert_ok_of_C03 he.pick_ok (he.noEmptyKey d hg) (he.wellFormed d hg) (he.freq d hg) k hc hlen
-        (fun x hx => he.lookup d x _ (hw x hx))
-    · exact he.beyond k d c hg hc (by omega) hw
+    intro k d c hg hc
+    by_cases hlen : c.symbols.length ≤ 128 ∧ Conv.SpellNonempty c
+    · rw [he.engine k d c hlen.1 hlen.2]
+      exact convert_ok_of_C03 he.pick_ok (he.wellFormed d hg) (he.freq d hg) k hc hlen.1 hlen.2
+    · exact he.beyond k d c hg hc (by
+        by_cases h1 : c.symbols.length ≤ 128
+        · exact .inr (fun h2 => hlen ⟨h1, h2⟩)
+        · exact .inl (by omega))
+  convert_len := by
+    intro k d c paths hg hc hw hq
+    by_cases hlen : c.symbols.length ≤ 128 ∧ Conv.SpellNonempty c
+    · rw [he.engine k d c hlen.1 hlen.2] at hq
+      exact convert_len_of_C03 (he.wellFormed d hg) k hc (fun x hx => he.lookup d x _ (hw x hx)) hq
+    · exact he.beyond_len k d c paths hg hc (by
+        by_cases h1 : c.symbols.length ≤ 128
+        · exact .inr (fun h2 => hlen ⟨h1, h2⟩)
+        · exact .inl (by omega)) hw hq
 
 end Chewing.Link
